@@ -40,6 +40,15 @@ impl Complex {
 		}
 	}
 
+	/// A total order (real part first, then imaginary part), for sorting
+	/// values that `compare` cannot order
+	pub(crate) fn total_cmp<I: Interrupt>(&self, other: &Self, int: &I) -> FResult<Ordering> {
+		Ok(self
+			.real
+			.compare(&other.real, int)?
+			.then(self.imag.compare(&other.imag, int)?))
+	}
+
 	pub(crate) fn serialize(&self, write: &mut impl io::Write) -> FResult<()> {
 		self.real.serialize(write)?;
 		self.imag.serialize(write)?;
